@@ -275,7 +275,7 @@ func ruleC20(prog *Program, rep *Report) {
 	rulePairwiseLookup(prog, rep, 1, "asm")
 	ruleContextForward(prog, rep)
 	ruleResliceInput(prog, rep, "asm") // args is the plan's own argument list: a zero-length view of it used as a buffer rewrites the plan
-	ruleOptionArgs(prog, rep, "asm") // [string x] sorts keys through an option; an option of the wrong type is ignored and the order becomes random
+	ruleOptionArgs(prog, rep, "asm")   // [string x] sorts keys through an option; an option of the wrong type is ignored and the order becomes random
 	ruleLoopExit(prog, rep, 25, "asm")
 	// building a plan (NewPlan and what it calls) runs outside Execute's recover frame: an index panic there escapes
 	build := reachableFuncs(prog, "asm", "NewPlan")
